@@ -2,7 +2,7 @@
    Stage 1: every content normalisation and the spacing rule are fixpoints of themselves; that the
    wrapper's plan is a function of the layout-free view (H-W2, H-W4) is decided by the oracle. *)
 From PasfmtVerif Require Import Model.Spacing Proofs.SpacingProofs Model.Rewriters Proofs.RewritersProofs
-  Model.MLString Proofs.MLStringProofs.
+  Model.MLString Proofs.MLStringProofs Model.Pipeline Proofs.PipelineProofs.
 
 Theorem C03_spacing_idempotent : forall l, token_spacing (token_spacing l) = token_spacing l.
 Proof. exact spacing_idempotent. Qed.
@@ -17,3 +17,8 @@ Theorem C03_mlstring_idempotent :
   forall rs ind cont c c', rs_ok rs -> ends_quote c ->
   rewrite_ml_token rs ind cont c = Some c' -> rewrite_ml_token rs ind cont c' = None.
 Proof. exact token_idempotent. Qed.
+
+(* in the generated stage list the content-rewriting rules run before the wrapper, so the wrapper
+   measures the text that is finally emitted *)
+Theorem C03_rewriters_before_wrapper : rewriters_before_wrapper pipeline = true.
+Proof. exact generated_rewriters_before_wrapper. Qed.
